@@ -179,6 +179,63 @@ func runDaemonHist(t *testing.T, rc *RunCtx, prop string) {
 			if !start() {
 				return
 			}
+		case 9:
+			// A clean stop under load: a client keeps asking for blocks at rising slots (a key of its own, the last of the
+			// population) while the process is told to shut down.  Whatever it was given before the process went is on record
+			// for the next process: the highest slot it got is asked for again, with another block.
+			kx := len(pop.Accts) - 1
+			type got struct {
+				o *Op
+				r *OpResult
+			}
+			const hammerers = 16 // each with a key of its own, so that several requests are in flight when the signal arrives
+			perClient := make([][]got, hammerers)
+			var hw sync.WaitGroup
+			base := uint64(5_000_000 + i*100_000)
+			for c := 0; c < hammerers; c++ {
+				hw.Add(1)
+				go func(c int) {
+					defer hw.Done()
+					for slot := base; slot < base+50_000; slot++ {
+						o := &Op{Kind: "prop", Entries: []Entry{PropEntry(kx-c, slot, 2*slot)}}
+						r := o.ExecVia(context.Background(), pop.Population, api)
+						if r.Err != nil {
+							return
+						}
+						perClient[c] = append(perClient[c], got{o, r})
+					}
+				}(c)
+			}
+			time.Sleep(time.Duration(5+ch.Pick(60, 0)) * time.Millisecond)
+			d.Stop()
+			hw.Wait()
+			var answers []got
+			highest := make([]uint64, hammerers)
+			for c := range perClient {
+				for _, a := range perClient[c] {
+					answers = append(answers, a)
+					Monitor(rc, ledger, pop.Population, a.o, a.r, i, false)
+					if a.r.OK(0) {
+						highest[c] = a.o.Entries[0].PSlot
+					}
+				}
+			}
+			rc.Stats.Inc("clean_stops_under_load", 1)
+			rc.Stats.Inc("requests_answered_while_stopping", int64(len(answers)))
+			desc = append(desc, fmt.Sprintf("STOP-UNDER-LOAD(%d answered)", len(answers)))
+			if !start() {
+				return
+			}
+			for c, h := range highest {
+				if h == 0 {
+					continue
+				}
+				o := &Op{Kind: "prop", Entries: []Entry{PropEntry(kx-c, h, 2*h+1)}}
+				r := o.ExecVia(context.Background(), pop.Population, api)
+				if r.Err == nil {
+					Monitor(rc, ledger, pop.Population, o, r, i, false)
+				}
+			}
 		}
 	}
 	if prop == "C03" && d.Incarnation > 1 {
